@@ -1,6 +1,6 @@
 import YaegiVerif.Proofs.C03Decl
 /- C03: the untyped integer fragment under a pushed-down type and in the later walks of a constant declaration:
-   an operation on untyped constants stays an untyped constant whatever the context expects (7973ebe), so every walk
+   an operation on untyped constants stays an untyped constant whatever the context expects (3f5ccd5), so every walk
    computes the same node and the declared type is checked where the constant is assigned. -/
 namespace YaegiVerif.Proofs.C03
 open YaegiVerif YaegiVerif.Const
